@@ -6,6 +6,7 @@ import KM.Props.C04Go
 import KM.Props.C06Go
 import KM.Gen.GoCookieUp
 import KM.Gen.GoVipOtp
+import KM.Gen.GoOkta
 /-! # C05 — when `validateUserTOTP` says yes, on the TRANSLATED source (go2lean); see `KM/Props/C14Go.lean` -/
 namespace KM.Totp
 open KM.Go KM.GoTypes
@@ -525,3 +526,39 @@ theorem c05_go_vip_otp_upgrade (ext : VipOtpExt) (formOTP : List (List Char) × 
   · rw [hca] at h; simp at h
 
 end KM.VipOtpGo
+
+/-! ## Okta: `oktaPollCheckHandler` from `checkAuth` to the end (tail block) and the core of `Okta2FAuthHandler`
+(`KM/Gen/GoOkta.lean`) -/
+namespace KM.OktaGo
+open KM.GoTypes KM.Go
+
+/-- **an approved Okta push raises only the cookie of the user Okta was asked about** (C05), on the translated source of
+`oktaPollCheckHandler` (from `checkAuth` to the end): the upgrade is reached only when `checkAuth` admitted the request,
+the password backend is Okta, and Okta — asked about the push of exactly the authenticated user — answered "approved"
+without an error; the cookie raised is that user's, by the Okta bit; 200 is answered only after that upgrade succeeded. -/
+theorem c05_go_okta_poll_upgrade (ext : OktaExt) (isOkta : Bool) (u : List Char) (lvl : Nat)
+    (h : OktaEffect.upgrade u lvl ∈ (KM.Gen.GoOkta.oktaPollCore ext isOkta).2) :
+    ∃ info, ext.checkAuth 65535 = (info, none) ∧ isOkta = true ∧ u = info.Username ∧ lvl = (info.AuthType ||| 128) ∧
+      ext.push info.Username = (1, none) ∧ OktaEffect.askedPush info.Username ∈ (KM.Gen.GoOkta.oktaPollCore ext isOkta).2 := by
+  obtain ⟨ca, push, otp, ur⟩ := ext
+  unfold KM.Gen.GoOkta.oktaPollCore at h ⊢
+  dsimp only at h ⊢
+  refine ⟨(ca 65535).1, ?_⟩
+  cases isOkta <;> simp only [Bool.false_eq_true, if_false, if_true, Bool.not_true, Bool.not_false] at h ⊢ <;>
+    (repeat' split at h) <;> simp_all [Prod.ext_iff]
+
+/-- **an Okta code raises only the cookie of the user it was validated for** (C05), on the translated core of
+`Okta2FAuthHandler`: the upgrade is reached only when the backend is Okta and Okta — asked about exactly the user and
+code that `commonTOTPPostHandler` handed over — answered `true` without an error; the cookie raised is that user's. -/
+theorem c05_go_okta_otp_upgrade (ext : OktaExt) (isOkta : Bool) (user : List Char) (level otpv : Nat)
+    (u : List Char) (lvl : Nat)
+    (h : OktaEffect.upgrade u lvl ∈ (KM.Gen.GoOkta.oktaOtpCore ext isOkta user level otpv).2) :
+    isOkta = true ∧ u = user ∧ lvl = (level ||| 128) ∧ ext.otp user otpv = (true, none) ∧
+      OktaEffect.askedOtp user otpv ∈ (KM.Gen.GoOkta.oktaOtpCore ext isOkta user level otpv).2 := by
+  obtain ⟨ca, push, otp, ur⟩ := ext
+  unfold KM.Gen.GoOkta.oktaOtpCore at h ⊢
+  dsimp only at h ⊢
+  cases isOkta <;> simp only [Bool.false_eq_true, if_false, if_true, Bool.not_true, Bool.not_false] at h ⊢ <;>
+    (repeat' split at h) <;> simp_all [Prod.ext_iff]
+
+end KM.OktaGo
